@@ -102,6 +102,10 @@ type Context struct {
 	PicWidthInLumaSamples  uint32 // sps
 	PicHeightInLumaSamples uint32 // sps
 
+	// Width Height 输出画面的大小，即 PicWidthInLumaSamples PicHeightInLumaSamples 扣除conformance window之后的值
+	Width  uint32
+	Height uint32
+
 	ConfigurationVersion uint8 // const value: 1
 
 	GeneralProfileSpace              uint8
@@ -513,8 +517,9 @@ func ParseSps(sps []byte, ctx *Context) error {
 		return err
 	}
 	ctx.ChromaFormat = uint8(cf)
+	var separateColourPlaneFlag uint8
 	if ctx.ChromaFormat == 3 {
-		if _, err = br.ReadBit(); err != nil {
+		if separateColourPlaneFlag, err = br.ReadBit(); err != nil {
 			return err
 		}
 	}
@@ -531,20 +536,26 @@ func ParseSps(sps []byte, ctx *Context) error {
 	if err != nil {
 		return err
 	}
+	var confWinOffset [4]uint32 // left, right, top, bottom
 	if conformanceWindowFlag != 0 {
-		if _, err = br.ReadGolomb(); err != nil {
-			return err
-		}
-		if _, err = br.ReadGolomb(); err != nil {
-			return err
-		}
-		if _, err = br.ReadGolomb(); err != nil {
-			return err
-		}
-		if _, err = br.ReadGolomb(); err != nil {
-			return err
+		for i := range confWinOffset {
+			if confWinOffset[i], err = br.ReadGolomb(); err != nil {
+				return err
+			}
 		}
 	}
+	// conformance window的单位是SubWidthC, SubHeightC，见7.4.3.2.1
+	subWidthC, subHeightC := uint32(1), uint32(1)
+	if separateColourPlaneFlag == 0 {
+		switch ctx.ChromaFormat {
+		case 1:
+			subWidthC, subHeightC = 2, 2
+		case 2:
+			subWidthC, subHeightC = 2, 1
+		}
+	}
+	ctx.Width = ctx.PicWidthInLumaSamples - subWidthC*(confWinOffset[0]+confWinOffset[1])
+	ctx.Height = ctx.PicHeightInLumaSamples - subHeightC*(confWinOffset[2]+confWinOffset[3])
 
 	var bdlm8 uint32
 	if bdlm8, err = br.ReadGolomb(); err != nil {
